@@ -15,6 +15,7 @@ stdout and /verif/seeded/NEUTRAL_STRESS.json.
   tools/neutral_stress.py [C19 ...] [--jobs N]
 """
 import ast
+import copy
 import importlib
 import json
 import multiprocessing
@@ -87,7 +88,83 @@ def build_variants(specs, base):
             out.append(mu.Variant('%s swap-eq-operands' % spec, 'neutral', path, (lambda d: (lambda tree: _swap_eq(mu.find_def(tree, d))))(dotted)))
         out.append(mu.Variant('%s noop-first' % spec, 'neutral', path,
                               (lambda d: (lambda tree: mu.insert_first(mu.find_def(tree, d), "'no operation'")))(dotted)))
+        if _G.get('extra'):
+            for kind, tr in (('inline-result', _inline_result), ('outline-result', _outline_result), ('if-else-swap', _if_else_swap), ('augassign-expand', _aug_expand)):
+                probe = copy.deepcopy(fn)
+                for x in ast.walk(probe):
+                    for ch in ast.iter_child_nodes(x):
+                        ch._parent = x
+                if tr(probe):
+                    out.append(mu.Variant('%s %s' % (spec, kind), 'neutral', path, (lambda d, t: (lambda tree: t(mu.find_def(tree, d))))(dotted, tr)))
     return out
+
+
+def _blocks(fn):
+    for n in ast.walk(fn):
+        for fld in ('body', 'orelse', 'finalbody'):
+            b = getattr(n, fld, None)
+            if isinstance(b, list) and b and isinstance(b[0], ast.stmt):
+                yield b
+
+
+def _inline_result(fn):
+    """`v = e` directly followed by `return v`  ->  `return e`"""
+    n = 0
+    for b in _blocks(fn):
+        for i in range(len(b) - 1):
+            a, r = b[i], b[i + 1]
+            if isinstance(a, ast.Assign) and len(a.targets) == 1 and isinstance(a.targets[0], ast.Name) and isinstance(r, ast.Return) \
+                    and isinstance(r.value, ast.Name) and r.value.id == a.targets[0].id:
+                uses = [x for x in ast.walk(fn) if isinstance(x, ast.Name) and x.id == a.targets[0].id]
+                if len(uses) == 2:
+                    b[i:i + 2] = [ast.copy_location(ast.Return(value=a.value), a)]
+                    n += 1
+                    break
+    return n > 0
+
+
+def _outline_result(fn):
+    """`return <call>`  ->  `outlined_ = <call>; return outlined_`"""
+    n = 0
+    for b in _blocks(fn):
+        for i, r in enumerate(list(b)):
+            if isinstance(r, ast.Return) and isinstance(r.value, ast.Call):
+                a = ast.copy_location(ast.Assign(targets=[ast.Name(id='outlined_', ctx=ast.Store())], value=r.value), r)
+                b[b.index(r):b.index(r) + 1] = [a, ast.copy_location(ast.Return(value=ast.Name(id='outlined_', ctx=ast.Load())), r)]
+                n += 1
+    if n:
+        ast.fix_missing_locations(fn)
+    return n > 0
+
+
+def _if_else_swap(fn):
+    """`if c: A else: B`  ->  `if not c: B else: A` (plain else only)"""
+    n = 0
+    for x in ast.walk(fn):
+        if isinstance(x, ast.If) and x.orelse and not (len(x.orelse) == 1 and isinstance(x.orelse[0], ast.If)):
+            par = getattr(x, '_parent', None)
+            if isinstance(par, ast.If) and par.orelse == [x]:
+                continue   # an elif arm
+            x.test = ast.copy_location(ast.UnaryOp(op=ast.Not(), operand=x.test), x.test)
+            x.body, x.orelse = x.orelse, x.body
+            n += 1
+    if n:
+        ast.fix_missing_locations(fn)
+    return n > 0
+
+
+def _aug_expand(fn):
+    """`x += <number>`  ->  `x = x + <number>` for plain names"""
+    n = 0
+    for b in _blocks(fn):
+        for i, a in enumerate(b):
+            if isinstance(a, ast.AugAssign) and isinstance(a.target, ast.Name) and isinstance(a.value, ast.Constant) and isinstance(a.value.value, int):
+                b[i] = ast.copy_location(ast.Assign(targets=[ast.Name(id=a.target.id, ctx=ast.Store())],
+                                                    value=ast.BinOp(left=ast.Name(id=a.target.id, ctx=ast.Load()), op=a.op, right=a.value)), a)
+                n += 1
+    if n:
+        ast.fix_missing_locations(fn)
+    return n > 0
 
 
 def _swap_eq(fn):
@@ -122,6 +199,7 @@ def main():
     if '--jobs' in sys.argv:
         jobs = int(sys.argv[sys.argv.index('--jobs') + 1])
         args = [a for a in args if a != str(jobs)]
+    _G['extra'] = '--extra' in sys.argv
     props = args or sorted(f[:-3].upper() for f in os.listdir(os.path.join(VERIF, 'pcbverif', 'rules')) if f.startswith('c') and f.endswith('.py'))
     base = SourceIndex()
     _G['base'] = base
